@@ -372,12 +372,13 @@ func vC10Check(leftIn, rightIn vC10Input, options *IndividualNodesCompareOptions
 	_ = strings.Join
 }
 
-var vC10IdentifierVariants = []string{"swapped-pointers-one-unique-id", "swapped-pointers-two-unique-ids", "renumbered-with-unique-ids", "shared-unique-id-different-names", "twins-one-unique-id"}
+var vC10IdentifierVariants = []string{"swapped-pointers-one-unique-id", "swapped-pointers-two-unique-ids", "renumbered-with-unique-ids", "shared-unique-id-different-names", "twins-one-unique-id", "only-the-family-renumbered", "family-renumbered-and-extended"}
 
 // VerifC10_Identifiers: people who are matched by a unique identifier (_UID) while their pointers say
 // something else: a father and a son with the same name whose pointers are swapped in the copy (one or
 // both carry a _UID), a renumbered copy with identifiers, the same identifier under different names,
-// twins of whom one has an identifier. cs%5: variant, cs/5%2: documents swapped.
+// twins of whom one has an identifier; and copies in which only the
+// family record is renumbered. cs%7: variant (4 = twins), cs/7%2: documents swapped.
 func VerifC10_Identifiers(cs int) {
 	uid := func(c string) string { return "1 _UID " + strings.Repeat(c, 32) + "\n" }
 	mk := func(side string) vC10Input {
@@ -391,7 +392,7 @@ func VerifC10_Identifiers(cs int) {
 	}
 	l, r := mk("L"), mk("R")
 	swap := map[string]string{"I1": "I2", "I2": "I1"}
-	switch cs % 5 {
+	switch cs % 7 {
 	case 0:
 		l.people[1].extra += uid("B")
 		r.people[1].extra += uid("B")
@@ -413,14 +414,28 @@ func VerifC10_Identifiers(cs int) {
 		r.people[1].extra += uid("B")
 		r.people[1].name = "Zebedee /Quux/"
 		r.people[1].birth = "1 Apr 1701"
+	case 5, 6:
+		// the same people (now with the mother) under the same pointers, only the family record has
+		// another pointer; in variant 6 the copy also has a daughter more
+		for _, in := range []*vC10Input{&l, &r} {
+			in.people = append(in.people, vC10Person{ptr: "I3", name: "Jane /Doe/", birth: "7 Mar 1880", marker: in.people[0].marker[:1] + "3", fams: "F1"})
+			in.families[0].wife = "I3"
+		}
+		if cs%7 == 5 {
+			r = vC10Rename(r, map[string]string{"F1": "F9"})
+			break
+		}
+		r.people = append(r.people, vC10Person{ptr: "I4", name: "Mary /Smith/", birth: "2 Feb 1905", marker: "R4", famc: "F1"})
+		r.families[0].chil = append(r.families[0].chil, "I4")
+		r = vC10Rename(r, map[string]string{"F1": "F9"})
 	default:
 		// twins: same name and birth on both sides, only the second carries the identifier
 		l.people[0].birth, r.people[0].birth = "3 Mar 1901", "3 Mar 1901"
 		l.people[1].extra += uid("B")
 		r.people[1].extra += uid("B")
 	}
-	if cs/5%2 == 1 {
+	if cs/7%2 == 1 {
 		l, r = r, l
 	}
-	vC10Check(l, r, NewIndividualNodesCompareOptions(), vC10IdentifierVariants[cs%5])
+	vC10Check(l, r, NewIndividualNodesCompareOptions(), vC10IdentifierVariants[cs%7])
 }
